@@ -10,6 +10,8 @@ from vlib import say
 # per property: trials per tier, trials per child process, min distinct signatures for a pass
 CONF = {
     "C04": {"quick": 96, "thorough": 3000, "batch": 6, "min_distinct": 8, "loops": [1, 2]},
+    "C05": {"quick": 1600, "thorough": 60000, "batch": 100, "min_distinct": 20, "loops": [1, 2]},
+    "C09": {"quick": 1600, "thorough": 60000, "batch": 100, "min_distinct": 20, "loops": [1, 2]},
 }
 
 RULES = {
@@ -55,6 +57,8 @@ def run(prop, tier, seed, replay=None):
             guard += 1
             env = {"VERIF_SEED": str(seed), "VERIF_FROM": str(frm), "VERIF_COUNT": str(cnt), "VERIF_SCEN": prop,
                    "VERIF_LOOPS": str(loops[bi % len(loops)]), "VERIF_WATCHDOG_S": str(wd)}
+            if guard > 1 and frm >= 0:
+                env["VERIF_NO_DIRECTED"] = "1"
             env.update(conf.get("env", {}))
             r = vlib.run_child(binary, TEST, env, wd * cnt + 120, "%s-b%d-%d" % (prop, frm, guard))
             recs += r["records"]
